@@ -205,6 +205,45 @@ def main(argv=None):
             for d in pool.imap_unordered(_work, tasks, chunksize=1):
                 results.append(d)
 
+    # 2b. coverage-guided tier (thorough only): the same clause tests driven by atheris/libFuzzer
+    atheris_info = {}
+    FUZZ = {"C05": ["programs"], "C07": ["transport", "limited"], "C08": ["history"]}
+    if a.tier == "thorough" and prop in FUZZ and not a.clause and os.environ.get("VK_NOFUZZ") != "1":
+        runs = int(float(os.environ.get("VK_FUZZ_RUNS", "40000")) * a.scale)
+        procs = []
+        os.makedirs(os.path.join(ROOT, "scratch"), exist_ok=True)
+        for cname in FUZZ[prop]:
+            for k in range(4):
+                outp = os.path.join(ROOT, "scratch", "fuzz_%s_%s_%d_%d.json" % (prop, cname, k, os.getpid()))
+                cmd = [sys.executable, "-W", "ignore", "-m", "vk.fuzz", prop, cname, str(runs), str(core.stable_seed(seed, prop, cname, "fz", k) % 2**31), outp]
+                procs.append((cname, outp, subprocess.Popen(cmd, cwd=ROOT, stdout=subprocess.DEVNULL, stderr=subprocess.DEVNULL)))
+        for cname, outp, pr in procs:
+            try:
+                pr.wait(timeout=max(60, deadline - time.time()))
+            except subprocess.TimeoutExpired:
+                pr.kill()
+            info = atheris_info.setdefault(cname, {"executions": 0, "distinct_cases": 0, "nontrivial": 0, "violation_kinds": {}, "fallback": None})
+            if not os.path.exists(outp):
+                info["fallback"] = "no result (atheris not importable or campaign killed)"
+                continue
+            d = json.load(open(outp))
+            os.remove(outp)
+            if "fallback" in d:
+                info["fallback"] = d["fallback"]
+                continue
+            info["executions"] += d.get("executions", 0)
+            info["distinct_cases"] += d.get("distinct_cases", 0)
+            info["nontrivial"] += len(d.get("nt_hashes", []))
+            d.update({"clause": cname, "seed": seed, "n": 0, "last_fail": None})
+            d["evaluations"] = 0          # atheris executions are reported separately, not added to the Hypothesis counts
+            d["nt_hashes"] = []
+            d["labels"] = {}
+            d["samples"] = []
+            d["skipped_after_deadline"] = 0
+            for kind, b in d["buckets"].items():
+                info["violation_kinds"][kind] = info["violation_kinds"].get(kind, 0) + b["count"]
+            results.append(d)
+
     per_clause = {}
     for c in clauses:
         per_clause[c.name] = {"evaluations": 0, "nt": set(), "labels": {}, "samples": [], "kf_hits": {},
@@ -289,6 +328,7 @@ def main(argv=None):
             "regression_replays_run": nreg,
             "known_findings_reproduced": kf_lines,
             "shrink_incomplete": shrink_incomplete,
+            "atheris": atheris_info,
             "engine": "hypothesis %s (seeded, database=None, collect-then-shrink)" % __import__("hypothesis").__version__,
             "kawin_src": core.KAWIN_SRC, "kawin_rev": kawin_rev(),
             "harness_errors": len(harness_errors),
